@@ -1243,8 +1243,11 @@ PROPS["C13"]["rule"] += (" DROP GUARDS (rt stream, direct host, `(task I*)` comm
                          "number of guards alive (`g<N>`) and the model the number of task futures it has not dropped (M.Hosts.liveFutures: "
                          "metas with taskAlive, cleared only by dropTask); compared step by step, oracle key task-future-not-dropped.")
 PROPS["C13"]["level_text"] += (" TASK FUTURES ARE DROPPED (first clause): observed on the real code with drop guards and compared with the model's "
-                               "dropTask accounting on every direct `(task ...)` case (a test, labelled as such; the accounting invariant "
-                               "'every live future is stored or queued' over whole runs is not yet a theorem). Proved about the mechanism: finished_task_future_dropped "
+                               "dropTask accounting on every direct `(task ...)` case, and PROVED over whole runs - live_task_futures_are_stored (accounting "
+                               "invariant Acc, Lemmas/Acc.lean: one grind frame over pollBlock, then executor, shell operations and direct host): for every "
+                               "host-free task program, after EVERY history, every task future whose drop guard is alive belongs to a task stored in the "
+                               "command's slab or waiting in its spawn queue, so liveFutures <= tasks + spawn queue: nothing of a finished, cancelled, "
+                               "evicted or aborted task is kept. About the mechanism: finished_task_future_dropped "
                                "(finishTask clears exactly the finished task's guard and no other), dropped_task_counted_once, "
                                "aborted_command_drops_task_futures (tasks.clear() of an aborted command drops every stored task's future, any task layer).")
 PROPS["C13"]["streams"].append(Stream("lset", "timer", "timer", lset_gen, nontrivial=lset_nontrivial, shape=lset_shape,
